@@ -170,7 +170,7 @@ func ToCommandLine(wf WireFormat, resolveIds bool) (rule string, err error) {
 		fmt.Sprintf("%s,%s", act, list),
 	}
 
-	// Parse arch field first, if present
+	// Resolve the arch field first, if present: it selects the syscall table.
 	// Here there is a significant difference to what auditctl does.
 	// Auditctl will allow to install a rule for a different platform
 	// (i.e. "aarch64" when the actual platform is "x86_64"). A rule like this
@@ -178,22 +178,19 @@ func ToCommandLine(wf WireFormat, resolveIds bool) (rule string, err error) {
 	// When such a rule is printed with `auditctl -l`, it will show as
 	// "-F arch=b64", which is wrong.
 	// This code will print the real value, "aarch64".
-	if fieldIdx, found := existingFields[archField]; found {
-		r.arch, err = getDisplayArch(r.values[fieldIdx])
+	archIdx, hasArch := existingFields[archField]
+	if hasArch {
+		r.arch, err = getDisplayArch(r.values[archIdx])
 		if err != nil {
 			return "", err
 		}
-		op, found := reverseOperatorsTable[r.fieldFlags[fieldIdx]]
-		if !found {
-			return "", fmt.Errorf("field operator %x not found", r.fieldFlags[fieldIdx])
-		}
-		arguments = append(arguments, "-F", fmt.Sprintf("arch%s%s", op, r.arch))
 	}
 
 	// Parse syscalls
+	var syscallArgs []string
 	if r.allSyscalls {
 		if r.flags == exitFilter || r.flags == entryFilter {
-			arguments = append(arguments, "-S", "all")
+			syscallArgs = []string{"-S", "all"}
 		}
 	} else if len(r.syscalls) > 0 {
 		arch, err := getRuntimeArch()
@@ -230,7 +227,14 @@ func ToCommandLine(wf WireFormat, resolveIds bool) (rule string, err error) {
 			}
 		}
 
-		arguments = append(arguments, "-S", strings.Join(list, ","))
+		syscallArgs = []string{"-S", strings.Join(list, ",")}
+	}
+
+	// The syscalls are printed right after the arch field that governs them
+	// (auditctl wants arch before -S), or first when there is none. Fields
+	// keep the order in which they were installed.
+	if !hasArch {
+		arguments = append(arguments, syscallArgs...)
 	}
 
 	// Parse fields
@@ -242,7 +246,14 @@ func ToCommandLine(wf WireFormat, resolveIds bool) (rule string, err error) {
 		}
 		switch fieldID {
 		case archField:
-			// arch already handled
+			archName, err := getDisplayArch(r.values[idx])
+			if err != nil {
+				return "", err
+			}
+			arguments = append(arguments, "-F", fmt.Sprintf("arch%s%s", op, archName))
+			if idx == archIdx {
+				arguments = append(arguments, syscallArgs...)
+			}
 		case fieldCompare:
 			fieldIds, found := reverseComparisonsTable[comparison(r.values[idx])]
 			if !found {
